@@ -88,6 +88,10 @@ def shared_names(setup, dir_exists, kind):
     for _ in range(2):
         r = run_model(setup, 1, S.ScriptedChooser([]), dir_exists=dir_exists, shared="all", kind=kind)
         runs.append(set(r["touched"]))
+        if r["listed"]:
+            # the code enumerates the cache directory: every name in it, random
+            # temporary names included, is visible to every process
+            return "all"
     return runs[0] & runs[1]
 
 
@@ -137,7 +141,7 @@ def run_model(setup, nproc, chooser, dir_exists=True, shared=None, kind="indepen
                 "crashed": sc.crashed, "child_killed": sc.child_killed,
                 "trace": [list(t) for t in sc.trace[:ntrace]],
                 "fresh_trace": [list(t) for t in sc.trace[ntrace:]],
-                "final": final, "compiles": vfs.compiles,
+                "final": final, "compiles": vfs.compiles, "listed": vfs.listed,
                 "touched": sorted({pth for _o, _l, pth in vfs.log if vfs._is_volatile(pth)}),
                 "leftovers": [os.path.basename(f) for f in vfs.listdir(VDLL) if f != final],
                 "choices": [(str(s), n, v) for s, n, v in getattr(chooser, "choices", [])]}
@@ -201,7 +205,8 @@ def unit(cfg):
     shared = shared_names(setup, cfg["dir"], kind)
     if cfg.get("split") in (None, (0,), (0, 0)) and cfg.get("crash_range", (None,))[0] in (None, 0):
         u.note("names treated as shared between processes (same in two independent runs): %s"
-               % sorted(os.path.basename(x) for x in shared))
+               % ("every name in the cache directory (the code under test enumerates it)" if shared == "all"
+                  else sorted(os.path.basename(x) for x in shared)))
 
     budget = 120.0 if cfg["tier"] == "quick" else 300.0
     t_start = time.time()
